@@ -181,14 +181,14 @@ def run(ctx):
     gates(ctx, thorough)
     model_sequences(ctx, rnd, thorough)
     run_histories(ctx, "boundary-lengths", boundary_histories(rnd, thorough))
-    run_histories(ctx, "random-histories", random_histories(rnd, 1500 if thorough else 120))
+    run_histories(ctx, "random-histories", random_histories(rnd, 1500 if thorough else 60))
     run_histories(ctx, "exhaustion", exhaustion_histories(rnd, thorough))
     spec_written_images(ctx, rnd, 600 if thorough else 60)
     # host level: a file that does not fit fails with an error and the host file is left as it was
     from harness.props import c09, c10
     r = tlc.check_model("MC_Host", "MC_Host", workers=6, heap="8g")
     ctx.add_model("MC_Host(CapacityRespected)", r)
-    c09.host_suites(ctx, rnd, thorough)
+    c09.host_suites(ctx, rnd, thorough, n_sample=1500 if thorough else 0)       # the full first-step matrix (incl. full disks) + append sequences to a full disk
     ctx.cov["rule"] = ("add-sequences of the abstract allocation machine (TLC-exported), single files at every stream length within 11 bytes of a granule multiple and at sector "
                        "boundaries x {ML, BASIC, ASCII}, names/extensions of all length classes, random 2-6 file histories under default and permuted fill orders, runs to a full "
                        "disk (slots, granules, mixtures); after every add the image delta is judged by TLC (Tr_Disk) per file; for C07 also images written by the specification "
